@@ -47,6 +47,10 @@ ASSUME = [
     "distance) three scripts that start late: second script of a RunT call whose T runs subtests one after the other, the first script "
     "leaving a third of the way to the interrupt; "
     "background commands (killDelay = -1) are modelled in Deadline.tla (no escalation) but not part of the statement",
+    "the entry point testscript.Run is covered by a second stage: the cases of two deadline distances are repeated through Run with a real "
+    "*testing.T inside testing.Main (-test.timeout 10m, go test's default, so T.Deadline() is set and later than every Params.Deadline); the "
+    "verdict is T.Failed()/T.Skipped() and the end of the script the moment a function registered with Env.Defer runs; Params.Deadline left "
+    "zero (Run then takes T.Deadline()) is not part of the statement and not exercised",
     "Deadline.tla idealisation: goroutine steps take no time but interleave in every order with the timed events of the same instant; "
     "timed events (context, kill timer, process death) happen within J = 1 tick (25 ms) of their due time",
 ]
@@ -112,24 +116,38 @@ class Runner:
         self.samples = []
         self.extra = {}
         self.all_records = []
+        self.via_scripts = 0
 
     def run(self, cases, par, group, tag):
-        """cases: plan records without id.  Returns [(record, set of failed laws, class)]."""
+        """cases: plan records without id.  Returns [(record, set of failed laws, class)].  Cases marked via="run" are made
+        through testscript.Run with a real *testing.T (driver mode viarun), the others through RunT with the driver's T."""
+        withid = []
+        for c in cases:
+            c = dict(c)
+            c["id"] = self.next_id
+            self.next_id += 1
+            withid.append(c)
+        out = []
+        for mode, part in (("run", [c for c in withid if not c.get("via")]), ("viarun", [c for c in withid if c.get("via")])):
+            if part:
+                out += self._run(part, par, group, tag, mode)
+        return out
+
+    def _run(self, cases, par, group, tag, mode):
         self.n += 1
         name = "%s%d" % (tag, self.n)
         plan = self.ctx.path("plan-%s.ndjson" % name)
         with open(plan, "w") as fh:
             for c in cases:
-                c = dict(c)
-                c["id"] = self.next_id
-                self.next_id += 1
                 fh.write(json.dumps(c, sort_keys=True) + "\n")
         traces = self.ctx.path("val-%s" % name, "trace.ndjson")
         out = self.ctx.path("result-%s.json" % name)
         longest = max(c["D"] for c in cases) / 1000.0
-        run_driver(self.ctx, [self.drv, "run", "-plan", plan, "-traces", traces, "-out", out, "-work", self.ctx.mkdir("work-" + name),
+        run_driver(self.ctx, [self.drv, mode, "-plan", plan, "-traces", traces, "-out", out, "-work", self.ctx.mkdir("work-" + name),
                               "-par", str(par), "-group", str(group), "-smin", str(SMIN)],
                    timeout=int(120 + (longest + 8) * (len(cases) / float(par * group) + 2)))
+        if mode == "viarun":
+            self.via_scripts += len(cases)
         r = load_result(out)
         self.scripts += r["counters"].get("scripts", 0)
         self.runt_calls += r["counters"].get("runT_calls", 0)
@@ -184,7 +202,7 @@ def observed(rec):
 
 
 def case_of(rec):
-    return {k: rec.get(k, 0) for k in ("label", "D", "x", "onint", "ok", "neg", "after")}
+    return {k: rec.get(k, 0) for k in ("label", "D", "x", "onint", "ok", "neg", "after")} | ({"via": rec["via"]} if rec.get("via") else {})
 
 
 def judge(ctx, runner, misses, all_ds=frozenset()):
@@ -194,7 +212,7 @@ def judge(ctx, runner, misses, all_ds=frozenset()):
     violations, transient, unreproduced, inconclusive = [], [], [], []
     todo, seen = [], set()
     for rec, laws in misses:          # one representative per (laws, case) is enough to decide; cap the work
-        key = (tuple(sorted(laws)), rec["D"], rec["onint"], rec["x"], rec["ok"], rec["neg"], rec.get("after", 0))
+        key = (tuple(sorted(laws)), rec["D"], rec["onint"], rec["x"], rec["ok"], rec["neg"], rec.get("after", 0), rec.get("via", ""))
         if key not in seen:
             seen.add(key)
             todo.append(dict(rec=rec, laws=laws, repro={l: 0 for l in laws}, tries=0, last_round={}))
@@ -246,14 +264,14 @@ def judge(ctx, runner, misses, all_ds=frozenset()):
             law = sorted(laws)[0]
             violations.append(dict(
                 kind="l1-rejected:" + law,
-                what="DeadlineL1.%s rejects what the real RunT did with Params.Deadline = now + %d ms for a child that %s and %s "
+                what="DeadlineL1.%s rejects what the real %s did with Params.Deadline = now + %d ms for a child that %s and %s "
                      "%s(reproduced in %d of %d re-runs): %s" % (
-                         law, rec["D"], "ignores the interrupt" if rec["onint"] == "ignore" else "dies of the interrupt",
+                         law, "testscript.Run (real *testing.T, -test.timeout 10m)" if rec.get("via") else "RunT", rec["D"], "ignores the interrupt" if rec["onint"] == "ignore" else "dies of the interrupt",
                          "never leaves on its own" if rec["x"] < 0 else "leaves on its own at %d ms" % rec["x"],
                          "in a script that starts after an earlier script of the same RunT call ended at about %d ms " % rec["after"] if rec.get("after") else "",
                          it["repro"][law], it["tries"], explain(law, rec)),
                 input=info, **{"class": "%s|D=%d|x=%d|%s|ok=%s|neg=%s%s" % (law, rec["D"], rec["x"], rec["onint"], rec["ok"], rec["neg"],
-                                                                      "|after=%d" % rec["after"] if rec.get("after") else "")}))
+                                                                      ("|after=%d" % rec["after"] if rec.get("after") else "") + ("|via=Run" if rec.get("via") else ""))}))
         else:
             dict(transient=transient, unreproduced=unreproduced, inconclusive=inconclusive)[verdict].append(info)
 
@@ -393,6 +411,17 @@ def check(ctx):
             if todo and attempt >= 3:
                 raise NoVerdict("machine too busy: scheduling delays above %d ms (or stalled / never started helpers) in 3 attempts for %d scripts"
                                 % (JIT_LIMIT, len(todo)))
+    # 3b. the entry point users call: testscript.Run with a real *testing.T whose own deadline (-test.timeout 10m, go test's
+    # default) is far later than Params.Deadline.  Two deadline distances, every class of the plan, same validation.
+    via_ds = sorted({c["D"] for c in cases})[1:4:2]
+    todo, attempt = [dict(case_of(c), via="run") for c in cases if c["D"] in via_ds and not c.get("after")], 0
+    while todo:
+        attempt += 1
+        rs = runner.run(todo, par=8, group=8, tag="via")
+        todo = [case_of(rec) for rec, laws, _ in rs if laws is None]
+        misses += [(rec, laws) for rec, laws, _ in rs if laws]
+        if todo and attempt >= 3:
+            raise NoVerdict("machine too busy during the testscript.Run stage: %d scripts not judged in 3 attempts" % len(todo))
     log("C17 %d scripts in %d RunT calls; classes %s; %d observations with a failed law; %d runs not judged (noisy)"
         % (runner.scripts, runner.runt_calls, json.dumps(runner.classes, sort_keys=True), len(misses), runner.noisy))
 
@@ -427,7 +456,7 @@ def check(ctx):
                          "the real-time sweep is a bounded sample",
         l2_model=dict(distinct_states=l2_states, deadline_ticks=model_ds, tick_ms=TICK, outcomes_emitted=len(outcomes),
                       background_variant_states=res_bg.distinct),
-        plan_sizes=plan_sizes, runT_calls=runner.runt_calls, classes=runner.classes, noisy_runs_not_judged=runner.noisy, helpers_unobservable=runner.unobserved,
+        plan_sizes=plan_sizes, runT_calls=runner.runt_calls, scripts_through_testscript_Run=runner.via_scripts, classes=runner.classes, noisy_runs_not_judged=runner.noisy, helpers_unobservable=runner.unobserved,
         observations_with_failed_law=len(misses), transient_misses=transient[:5], transient_total=len(transient),
         unreproduced_misses=unreproduced[:5], unreproduced_total=len(unreproduced),
         unjudged_similar_misses=skipped,
@@ -445,7 +474,7 @@ REGISTRY = dict(
          "context expired before Wait returned, kill only after the grace period, context error (timed-out verdict) exactly when the interrupt "
          "was sent, return bounded by D - g + 3J, early finishers keep their own status, and that the observable projection satisfies the "
          "contract DeadlineL1 (six bug switches are rejected).  The real-time plan is generated by TLC from the contract's formulas; every "
-         "planned script (among them scripts that start late: second script of a RunT call whose T runs subtests one after the other) is run through the real RunT with Params.Deadline set, helper children stamp interrupt arrival / last sign of life / "
+         "planned script (among them scripts that start late: second script of a RunT call whose T runs subtests one after the other) is run through the real RunT with Params.Deadline set (the cases of two distances also through testscript.Run with a real *testing.T whose own deadline is later), helper children stamp interrupt arrival / last sign of life / "
          "own exit on the monotonic clock, and TLC validates every observation against DeadlineL1 (interrupt window, kill window, verdict and "
          "message class, completion by the deadline, no child left, early finishers untouched).  Timing needs real time, so the exhaustive "
          "part is the model and the binding is recorded real runs with adaptive slack and reproduce-before-alarm.",
